@@ -133,6 +133,13 @@ PrevDeferCases ==
       dir |-> d, gap |-> g, exp |-> PlaceDir(r, d, g, sz[1], sz[2])] :
         rk \in {"rect", "ellipse", "line"}, r \in RefBoxes, sz \in {<<8, 4>>, <<4, 12>>}, d \in {"h", "H", "v", "V"}, g \in {0, 8}}
 
+\* "^" when the element written before is itself deferred: it means that element - once it
+\* is resolved - and not the one before it
+PrevPendingCases ==
+    {[fam |-> "rel", form |-> "prevpending", refkind |-> "rect", ref |-> r, kind |-> "rect", w |-> sz[1], h |-> sz[2],
+      dir |-> d, gap |-> g, exp |-> PlaceDir(r, d, g, sz[1], sz[2])] :
+        r \in RefBoxes, sz \in {<<8, 4>>}, d \in {"h", "H", "v", "V"}, g \in {0, 8}}
+
 \* a <point> as reference: a degenerate box; it is also a legitimate "previous element"
 PointRefCases ==
     {[fam |-> "rel", form |-> "dir", refkind |-> "point", ref |-> B(p[1], p[2], p[1], p[2]), kind |-> "rect", w |-> 8, h |-> 4,
@@ -221,7 +228,7 @@ ChainCases ==
         r \in RefBoxes, d1 \in {"h", "H", "v", "V"}, d2 \in {"h", "H", "v", "V"}, g \in {0, 4}}
 
 RelCases == DirCases \cup LocCases \cup EdgeCases \cup ScalarCases \cup SizeCases \cup ChainCases \cup PointRefCases
-            \cup DeltaCases \cup ReusePosCases \cup LinePtCases \cup DirDeltaCases \cup PrevDeferCases
+            \cup DeltaCases \cup ReusePosCases \cup LinePtCases \cup DirDeltaCases \cup PrevDeferCases \cup PrevPendingCases
 
 \* identities of the layout reference, checked on every case
 RelIdentities ==
